@@ -13,8 +13,15 @@ from ..core import Interp, Hooks, close, maxerr, dirty_fill
 from .base import Scenario
 
 
-def alloc(L, shape, dr=0, dc=0, fill='zeros', seed=0):
-    a = np.zeros((int(shape[0]) + dr, int(shape[1]) + dc), dtype=complex)
+def alloc(L, shape, dr=0, dc=0, fill='zeros', seed=0, layout='C'):
+    """A caller's scratch buffer: its own array, Fortran-ordered, or a window of a larger work area (a non-contiguous view)."""
+    shp = (int(shape[0]) + dr, int(shape[1]) + dc)
+    if layout == 'F':
+        a = np.zeros(shp, dtype=complex, order='F')
+    elif layout == 'view':
+        a = np.zeros((shp[0] + 3, shp[1] + 5), dtype=complex)[2:2 + shp[0], 1:1 + shp[1]]
+    else:
+        a = np.zeros(shp, dtype=complex)
     if fill != 'zeros':
         dirty_fill(a, fill, seed)
     return a
@@ -261,7 +268,7 @@ class FftScenario(Scenario):
             ev.append(E('scratch_shape', None, {'wavelength': lam, 'dx': dx, 'du': du, 'z': f, 'oversample': os_}, id=ss))
             sc = nid('sc')
             extra = (0, 0) if mode == 'exact' else (rng.randint(1, 4), rng.randint(0, 4))
-            ev.append(E('alloc', ['@' + ss], {'dr': extra[0], 'dc': extra[1],
+            ev.append(E('alloc', ['@' + ss], {'dr': extra[0], 'dc': extra[1], 'layout': rng.choice(['C', 'C', 'F', 'view']),
                                              'fill': force.get('fill') or rng.choice(['zeros', 'nan', 'inf', 'garbage', 'big']), 'seed': sd()}, id=sc))
             short = nid('sh')
             ev.append(E('alloc', ['@' + ss], {'dr': rng.choice([-1, 0]), 'dc': -1, 'fill': 'garbage', 'seed': sd()}, id=short))
